@@ -2,7 +2,7 @@
    In the model an object IS its own name in the heap [objs]; keys of Package.Types resolve to
    objects through [tkeys].  "The same object" is therefore: the same key resolves to the same
    heap name for ever (ext), and references stored in entries are heap names. *)
-Require Import Gengo.Base.Str Gengo.Model.Universe Gengo.Proofs.UniverseProofs Gengo.Proofs.ClosureProofs.
+Require Import Gengo.Base.Str Gengo.Model.Universe Gengo.Proofs.UniverseProofs Gengo.Proofs.ClosureProofs Gengo.Proofs.CanonProofs Gengo.Proofs.TerminationProofs.
 
 (* Universe.Type twice: same object, nothing changes the second time *)
 Theorem C06_lookup_idempotent : forall v2 u n u1 o,
@@ -60,6 +60,24 @@ Theorem C06_loads_keep_closed : forall v2 p fuel, (forall t ts, plookup t p <> S
   forall gs w w', wfc (w_u w) -> fold_left (add_package v2 p fuel) gs (Some w) = Some w' -> wfc (w_u w').
 Proof. exact load_closed. Qed.
 Print Assumptions C06_loads_keep_closed.
+
+(* the short-circuit on a decided kind is also what terminates the walk of recursive types: on a
+   node table that refers only to nodes it contains (prog_okb, decidable, checked on every run) walkType
+   never exhausts the budget 2 * (number of keys the table can give rise to) + 2 -- every second
+   level of the recursion decides a key that was undecided -- and so neither does any load.  The
+   model runs with exactly this budget (Universe.budget): "out of fuel" cannot occur *)
+Theorem C06_walk_terminates : forall v2 p, prog_okb p = true -> named_ok v2 p ->
+  forall f u t, 2 * length (allkeys v2 p) + 2 <= f -> wf u -> canonical v2 u -> has p t = true ->
+  walk v2 p f u None t <> None.
+Proof. exact walk_never_out_of_budget. Qed.
+Print Assumptions C06_walk_terminates.
+
+Theorem C06_loads_terminate : forall v2 p f, prog_okb p = true -> named_ok v2 p -> 2 * length (allkeys v2 p) + 2 <= f ->
+  forall gs w, wf (w_u w) -> canonical v2 (w_u w) ->
+  (forall g o, In g gs -> In o (g_scope g) -> has p (obj_node o) = true) ->
+  fold_left (add_package v2 p f) gs (Some w) <> None.
+Proof. exact load_total. Qed.
+Print Assumptions C06_loads_terminate.
 
 (* walking a type that is already there resolves to the existing object and changes nothing *)
 Theorem C06_occurrence_reuses_object : forall v2 p f u use t tstr sh o,
